@@ -252,3 +252,27 @@ Proof.
   - intros i j Hi Hj Hne. split; [apply (Hp i j); auto|].
     intros e2 e1 H2 _ H1 _. apply edge_match_plain; auto.
 Qed.
+
+(* ================================================================ the tabulated edge predicate *)
+Lemma edge_agree_nth : forall ps obs, edge_agree ps obs = true ->
+  length obs = length ps /\
+  forall k e1 e2, nth_error ps k = Some (e1, e2) -> supported_bt (mb_btype e2) = true ->
+                  nth_error obs k = Some (code_of_edge (edge_match e1 e2)).
+Proof.
+  induction ps as [|[a1 a2] ps IH]; intros [|o obs] H; cbn [edge_agree] in H; try discriminate.
+  - split; [reflexivity|]. intros [|k] e1 e2 Hk; discriminate.
+  - apply andb_true_iff in H. destruct H as [H0 H]. destruct (IH _ H) as [HL Hn].
+    split; [cbn [length]; now rewrite HL|]. intros [|k] e1 e2 Hk Hs; cbn [nth_error] in *.
+    + injection Hk as -> ->. rewrite Hs in H0. cbn [negb orb] in H0. apply N.eqb_eq in H0. now rewrite H0.
+    + now apply Hn.
+Qed.
+
+(* with a supported pattern no comparison raises *)
+Lemma edge_match_defined e1 e2 : supported_bt (mb_btype e2) = true -> exists r, edge_match e1 e2 = Some r.
+Proof.
+  unfold supported_bt, edge_match. cbn [existsb]. rewrite !orb_true_iff, !N.eqb_eq.
+  intros Hs.
+  repeat (destruct Hs as [E|Hs];
+          [rewrite E; cbn [N.eqb Pos.eqb]; try (destruct (N.ltb _ _)); try (destruct (negb _)); eauto|]).
+  discriminate Hs.
+Qed.
